@@ -767,9 +767,13 @@ impl KotoIterator for Skip {
 
     fn next_back(&mut self) -> Option<Output> {
         // Ensure the forward output has been skipped before yielding output from the back
-        if self.remaining > 0 {
-            self.iter.nth(self.remaining - 1);
-            self.remaining = 0;
+        for _ in 0..take(&mut self.remaining) {
+            match self.iter.next() {
+                // Errors in skipped outputs need to be propagated
+                Some(error @ Output::Error(_)) => return Some(error),
+                Some(_) => {}
+                None => break,
+            }
         }
 
         self.iter.next_back()
@@ -780,11 +784,16 @@ impl Iterator for Skip {
     type Item = Output;
 
     fn next(&mut self) -> Option<Self::Item> {
-        if self.remaining > 0 {
-            self.iter.nth(take(&mut self.remaining))
-        } else {
-            self.iter.next()
+        for _ in 0..take(&mut self.remaining) {
+            match self.iter.next() {
+                // Errors in skipped outputs need to be propagated
+                Some(error @ Output::Error(_)) => return Some(error),
+                Some(_) => {}
+                None => return None,
+            }
         }
+
+        self.iter.next()
     }
 
     fn size_hint(&self) -> (usize, Option<usize>) {
@@ -839,7 +848,10 @@ impl Iterator for Step {
     fn next(&mut self) -> Option<Self::Item> {
         let result = self.iter.next();
         for _ in 0..self.step - 1 {
-            self.iter.next();
+            // Errors in skipped outputs need to be propagated
+            if let Some(error @ Output::Error(_)) = self.iter.next() {
+                return Some(error);
+            }
         }
         result
     }
